@@ -24,17 +24,31 @@ func GenCrashEnum(prop string, seed uint64) *RunSpec {
 	spec := &RunSpec{Property: prop, Scenario: "S-CRASH-ENUM", Seed: seed, Cfg: g.cfg, Sched: SchedSpec{Mode: "sequential"}}
 	// prefix: handles 0 (target process) and 1 (survivor), 0..8 ops
 	autoT := r.Bool(0.6)
-	spec.Setup = append(spec.Setup, OpSpec{Kind: OpOpen, H: 0, Auto: autoT}, OpSpec{Kind: OpOpen, H: 1, Auto: r.Bool(0.5)})
+	// deep instances: a long uncompacted history (depth-dependent code
+	// paths, long lists, many open tables)
+	deep := r.Bool(0.02)
+	auto1 := r.Bool(0.5)
+	if deep {
+		autoT, auto1 = false, false
+	}
+	spec.Setup = append(spec.Setup, OpSpec{Kind: OpOpen, H: 0, Auto: autoT}, OpSpec{Kind: OpOpen, H: 1, Auto: auto1})
 	p.W = map[string]int{OpAdd: 10, OpAddMulti: 1, OpCompactRange: 1, OpCompactAll: 1}
 	n := r.Intn(9)
+	if deep {
+		p.W = map[string]int{OpAdd: 10, OpAddMulti: 1}
+		n = 12 + r.Intn(10)
+	}
 	for i := 0; i < n; i++ {
 		h := 0
-		if r.Bool(0.3) {
+		if r.Bool(0.3) && !deep {
 			h = 1
 		}
 		op := g.op(h)
 		for j := range op.Txns {
 			op.Txns[j].Bad = ""
+			if deep && len(op.Txns[j].Refs)+len(op.Txns[j].Logs) == 0 {
+				op.Txns[j].Refs = []RefSpec{{Name: g.names[r.Intn(len(g.names))], Kind: RefVal}}
+			}
 		}
 		spec.Setup = append(spec.Setup, op)
 	}
@@ -44,6 +58,9 @@ func GenCrashEnum(prop string, seed uint64) *RunSpec {
 	}
 	// target
 	kind := crashTargets[r.Intn(len(crashTargets))]
+	if deep && r.Bool(0.5) {
+		kind = OpAddMulti
+	}
 	p.W = map[string]int{kind: 1}
 	top := g.op(0)
 	for j := range top.Txns {
